@@ -36,7 +36,7 @@ def fix_deprecated(workpath: Path, fix: bool, cleanup: bool):
     jobspath = workpath / "jobs"
     logger.info("Looking for deprecated jobs in %s", jobspath)
 
-    if cleanup:
+    if cleanup and fix:
         for job_path in jobspath.glob("*/*/params.json"):
             # If link, skip
             if job_path.parent.is_symlink():
